@@ -3,8 +3,11 @@ import GaleneVerif.Engine.Cache
 import GaleneVerif.Engine.PacketMap
 import GaleneVerif.Engine.Codecs
 import GaleneVerif.Engine.Down
+import GaleneVerif.Engine.UpE2E
 /-
-Line-protocol driver.  usage: driver <engine> < trace
+Line-protocol driver.  usage: driver <engine> [oracle-only] < trace
+`oracle-only` (failing-input search): model/impl mismatches do not end the case;
+only the property oracle is evaluated, on the implementation's outputs.
 Trace lines: `# case <id>` starts a fresh case (engine state reset);
 `<op tokens> => <impl result tokens>` is one step.  After the first
 MISMATCH/ORACLE in a case the rest of the case is skipped (cascading).
@@ -27,48 +30,57 @@ def splitArrow (line : String) : List String × List String :=
   | a :: rest => (a.splitOn " " |>.filter (· ≠ ""), (" => ".intercalate rest).splitOn " " |>.filter (· ≠ ""))
   | [] => ([], [])
 
-partial def loop (e : EngineDef) (h : IO.FS.Stream) (st : e.σ) (caseId : String) (dead : Bool)
+partial def loop (e : EngineDef) (oracleOnly : Bool) (h : IO.FS.Stream) (st : e.σ) (caseId : String) (dead : Bool)
     (lineNo : Nat) (c : Counters) : IO Counters := do
   let raw ← h.getLine
   if raw.isEmpty then return c
   let line := (raw.dropEndWhile (fun ch => ch = '\n' || ch = '\r')).toString
   let lineNo := lineNo + 1
   if line.startsWith "# case" then
-    loop e h e.init ((line.drop 7).toString) false lineNo { c with cases := c.cases + 1 }
+    loop e oracleOnly h e.init ((line.drop 7).toString) false lineNo { c with cases := c.cases + 1 }
   else if line.startsWith "#" || line.isEmpty then
-    loop e h st caseId dead lineNo c
+    loop e oracleOnly h st caseId dead lineNo c
   else if dead then
-    loop e h st caseId dead lineNo { c with skipped := c.skipped + 1 }
+    loop e oracleOnly h st caseId dead lineNo { c with skipped := c.skipped + 1 }
   else
     let (op, impl) := splitArrow line
     let (st', v) := e.step st op impl
     let c := { c with lines := c.lines + 1 }
     match v with
-    | .ok => loop e h st' caseId false lineNo c
+    | .ok => loop e oracleOnly h st' caseId false lineNo c
     | .mismatch m =>
+      if oracleOnly then
+        -- failing-input search: keep evaluating the oracle on the implementation's outputs
+        loop e oracleOnly h st' caseId false lineNo { c with mismatches := c.mismatches + 1 }
+      else
       IO.println s!"MISMATCH case={caseId} line={lineNo} op=[{" ".intercalate op}] impl=[{" ".intercalate impl}] model=[{m}]"
-      loop e h st' caseId true lineNo { c with mismatches := c.mismatches + 1 }
+      loop e oracleOnly h st' caseId true lineNo { c with mismatches := c.mismatches + 1 }
     | .oracle m =>
       IO.println s!"ORACLE case={caseId} line={lineNo} op=[{" ".intercalate op}] impl=[{" ".intercalate impl}] msg=[{m}]"
-      loop e h st' caseId true lineNo { c with oracles := c.oracles + 1 }
+      loop e oracleOnly h st' caseId true lineNo { c with oracles := c.oracles + 1 }
     | .badop m =>
       IO.println s!"BADOP case={caseId} line={lineNo} op=[{" ".intercalate op}] msg=[{m}]"
-      loop e h st' caseId true lineNo { c with badops := c.badops + 1 }
+      loop e oracleOnly h st' caseId true lineNo { c with badops := c.badops + 1 }
 
 def engines : List (String × EngineDef) :=
   [ ("cache", Galene.Engine.Cache.engine),
     ("pmap", Galene.Engine.PacketMap.engine),
     ("codecs", Galene.Engine.Codecs.engine),
-    ("down", Galene.Engine.Down.engine) ]
+    ("down", Galene.Engine.Down.engine),
+    ("upe2e", Galene.Engine.UpE2E.engine) ]
 
 def main (args : List String) : IO UInt32 := do
-  match args with
-  | [name] =>
+  let (name?, oracleOnly) := match args with
+    | [name] => (some name, false)
+    | [name, "oracle-only"] => (some name, true)
+    | _ => (none, false)
+  match name? with
+  | some name =>
     match engines.lookup name with
     | some e =>
       let h ← IO.getStdin
-      let c ← loop e h e.init "0" false 0 {}
+      let c ← loop e oracleOnly h e.init "0" false 0 {}
       IO.println s!"SUMMARY lines={c.lines} cases={c.cases} mismatches={c.mismatches} oracles={c.oracles} badops={c.badops} skipped={c.skipped}"
       return 0
     | none => IO.eprintln s!"unknown engine {name}"; return 2
-  | _ => IO.eprintln "usage: driver <engine>"; return 2
+  | none => IO.eprintln "usage: driver <engine> [oracle-only]"; return 2
